@@ -745,3 +745,44 @@ fire("C09", "pending-merge-not-applied", "R9.8", E(MG, "bpe_train", """    if le
             )
 
 """, ""), "revert of the fix: the merge recorded last is never applied when the budget ends the loop")
+
+# --- round 3 batch C: module-level cache (seeded r3_C16), arr_unique on empty input (seeded r3_C10)
+_MH_OLD = "    return hash\n"
+for _p, _r in (("C16", "R16.7"), ("C13", "R13.6")):
+    fire(_p, "hash-cache-keyed-by-seed", _r, [E(MG, None, "def make_hash(", "_SEEDED_HASHES = {}\n\n\ndef make_hash("),
+                                             E(MG, "make_hash", _MH_OLD, "    _SEEDED_HASHES[seed] = hash\n    return hash\n")],
+         "seeded r3_C16: a later fit with another max_columns is handed the hash of an earlier one (the early-return half of the cache is omitted here; the write is what the rule reads)")
+    silent(_p, "hash-cache-keyed-by-size-and-seed", [E(MG, None, "def make_hash(", "_SEEDED_HASHES = {}\n\n\ndef make_hash("),
+                                                     E(MG, "make_hash", _MH_OLD, "    _SEEDED_HASHES[(size, seed)] = hash\n    return hash\n")],
+           "a memo table keyed by everything the hash depends on")
+fire("C10", "arr-union-guards-removed", "R10.10", E(DIST, "arr_union", "    if ar1.shape[0] == 0:\n        return ar2\n    elif ar2.shape[0] == 0:\n        return ar1\n    else:\n        return arr_unique(np.concatenate((ar1, ar2)))", "    return arr_unique(np.concatenate((ar1, ar2)))"),
+     "seeded r3_C10: two empty index arrays reach arr_unique")
+silent("C10", "arr-union-one-guard", E(DIST, "arr_union", "    elif ar2.shape[0] == 0:\n        return ar1\n    else:\n        return arr_unique(np.concatenate((ar1, ar2)))", "    return arr_unique(np.concatenate((ar1, ar2)))"),
+       "one early return suffices: the concatenation is non-empty")
+
+# --- C14 / C17: round 3 batch C
+_NUL_OLD = """    # if nulify mask
+    mask_index = kernel_args[0]
+    if kernel_args[0] is not None:
+        M = scipy.sparse.eye(global_counts.shape[0])
+        M.data[0, mask_index] = 0
+        global_counts = (M.dot(global_counts)).dot(M)
+        global_counts.eliminate_zeros()
+
+"""
+_NUL_DIRECT = """    mask_index = kernel_args[0]
+    if mask_index is not None:
+        global_counts = global_counts.tolil()
+        global_counts[mask_index, :] = 0
+        global_counts[:, mask_index] = 0
+        global_counts = global_counts.tocsr()
+        global_counts.eliminate_zeros()
+
+"""
+silent("C14", "tree-mask-cleared-directly", E(TREE, "sequence_tree_skip_grams", _NUL_OLD, _NUL_DIRECT), "row and column cleared directly, still before the orientation handling")
+fire("C14", "tree-mask-cleared-after-orientation", "R14.4", [E(TREE, "sequence_tree_skip_grams", _NUL_OLD, ""),
+                                                            E(TREE, "sequence_tree_skip_grams", "    return global_counts\n", _NUL_DIRECT + "    return global_counts\n")],
+     "seeded r3_C14: with 'directional' only the 'pre_' mask column is cleared")
+fire("C17", "clamp-lost-in-helper", "R17.2", [E(IW, None, "class InformationWeightTransformer(", "def _rescale_weights(weights, power):\n    return np.power(weights / np.mean(weights), power)\n\n\nclass InformationWeightTransformer("),
+                                             E(IW, "InformationWeightTransformer.fit", "            self.supervised_weights_ /= np.mean(self.supervised_weights_)\n            self.supervised_weights_ = np.maximum(self.supervised_weights_, 0.0)\n", "            self.supervised_weights_ = _rescale_weights(self.supervised_weights_, 1.0)\n")],
+     "seeded r3_C17 (one of the three blocks): the de-duplicated helper drops the clamp", allow_error=True)
